@@ -800,7 +800,7 @@ func ruleDispRematch(w *World, r *Report) {
 		}
 	}
 	// linear scan
-	lf := w.Method("core", "LinearState", "doFindRules")
+	lf := collectorOf(w, w.Method("core", "LinearState", "doFindRules"))
 	n := 0
 	allInstrs(lf, func(in ssa.Instruction) {
 		mu, ok := in.(*ssa.MapUpdate)
@@ -1675,6 +1675,9 @@ func ruleLoopExhaust(prop string) ruleFn {
 			if fn == nil {
 				r.exempt("LOOP-EXHAUST", "fn="+t.Rel+"."+t.Name, "", "function no longer exists: not decided")
 				continue
+			}
+			if t.Name == "doFindRules" {
+				fn = collectorOf(w, fn)
 			}
 			withAnon(fn, func(f *ssa.Function) {
 				loops := naturalLoops(f)
@@ -3164,7 +3167,7 @@ func ruleTermPrepared(prop string) ruleFn {
 func ruleClockAfterLock(w *World, r *Report) {
 	r.Rule("CLOCK-AFTER-LOCK", "in every State function that takes the state lock itself and judges expiry against a clock reading (a value derived from NowSecs / time.Now handed to the purge helper), the clock is read after the lock was acquired: no path leads from the clock reading through the acquisition of the state lock to the use.  A lookup that waits for a writer across an item's expiry instant would otherwise compare against the time it started waiting, and return (and dispatch) the item after it expired, without purging it", 2)
 	a := newLocAnchors(w)
-	purge := purgeHelpers(w)
+	purge := expiryJudges(w)
 	isClock := func(v ssa.Value) bool {
 		c, ok := v.(*ssa.Call)
 		if !ok {
@@ -4849,7 +4852,7 @@ func dependsOnErrOf(ret *ssa.Return, c *ssa.Call) bool {
 // LOST-RULE-SKIP (C01): a candidate that went away during the scan does not fail the event.
 func ruleLostRuleSkip(w *World, r *Report) {
 	r.Rule("LOST-RULE-SKIP", "IndexedState.doFindRules collects the candidate ids from the rule index and then visits them; visiting one (finding it expired) can remove others (its deleteWith dependents) before the loop reaches them.  Therefore, from the lookup of a candidate in IdToFact, with the `present` outcome deleted, no error return is reachable: a candidate that is gone is skipped.  Failing instead makes the event fail for every rule, including the unrelated ones that match", 1)
-	fn := w.Method("core", "IndexedState", "doFindRules")
+	fn := collectorOf(w, w.Method("core", "IndexedState", "doFindRules"))
 	key := "fn=" + fname(fn)
 	present := map[bedge]bool{}
 	var lookups []ssa.Instruction
@@ -8537,7 +8540,7 @@ func ruleStateFresh(prop string) ruleFn {
 // CLOCK-UNITS (C07, C02): expiry is judged in seconds.
 func ruleClockUnits(prop string) ruleFn {
 	return func(w *World, r *Report) {
-		r.Rule("CLOCK-UNITS", "`expires` is UNIX seconds, and checkExpiration / notAfter / the expire helpers compare it with the `now` they are given (0: read the clock yourself).  core has three clocks: Now() in nanoseconds, NowMicros(), NowSecs().  Every non-constant `now` handed to those functions derives from NowSecs() or time.Time.Unix(), never from Now() / NowMicros() / UnixNano(): in nanoseconds every lease, however long, lies in the past", 3)
+		r.Rule("CLOCK-UNITS", "`expires` is UNIX seconds, and checkExpiration / notAfter / the expire helpers compare it with the `now` they are given (0: read the clock yourself).  core has three clocks: Now() in nanoseconds, NowMicros(), NowSecs().  Every non-constant `now` handed to those functions derives from NowSecs() or time.Time.Unix(), never from Now() / NowMicros() / UnixNano(): in nanoseconds every lease, however long, lies in the past", 2)
 		targets := map[*ssa.Function]int{}
 		for _, name := range []string{"checkExpiration", "notAfter"} {
 			if f := w.TryFunc("core", name); f != nil {
@@ -9324,4 +9327,36 @@ func ruleLoopvarGo(prop string) ruleFn {
 			r.exempt("LOOPVAR-GO", "module", "", "no `go` statement with a function literal inside a loop: not decided")
 		}
 	}
+}
+
+// collectorOf: the function that does fn's collecting.  A reader that must not remove anything under its read lock
+// (`doFindRules`, `Search`) is a retry loop around a helper with the same results that takes the lock and walks the
+// candidates; the rules about the walk are decided there.
+func collectorOf(w *World, fn *ssa.Function) *ssa.Function {
+	if fn == nil || fn.Signature.Recv() == nil {
+		return fn
+	}
+	var out *ssa.Function
+	n := 0
+	allInstrs(fn, func(in ssa.Instruction) {
+		c := callOf(in)
+		if c == nil || c.StaticCallee() == nil || c.StaticCallee() == fn {
+			return
+		}
+		g := c.StaticCallee()
+		if g.Signature.Recv() == nil || len(g.Blocks) == 0 || !types.Identical(g.Signature.Recv().Type(), fn.Signature.Recv().Type()) {
+			return
+		}
+		if !types.Identical(g.Signature.Results(), fn.Signature.Results()) {
+			return
+		}
+		if out != g {
+			n++
+		}
+		out = g
+	})
+	if n == 1 {
+		return out
+	}
+	return fn
 }
